@@ -20,11 +20,11 @@ FUNCTIONS = ["debian._deb822_repro.tokens.whitespace_split_tokenizer", "debian._
 STUBS = []
 ASSUMPTIONS = ["words contain no whitespace, no comma and no '#' and no line-boundary characters; appended/replacement words likewise",
                "at least one value remains after a removal"]
-OUTSIDE = ["reformat_when_finished / sort", "LIST_UPLOADERS_INTERPRETATION", "more than two edit operations"]
+OUTSIDE = ["sort()", "LIST_UPLOADERS_INTERPRETATION", "more than two edit operations"]
 
 # separator layouts: %0 %1 %2 are the words
-WS_LAYOUTS = ["%0", "%0 %1", "%0  %1 %2", " %0 %1", "%0\n %1", "%0\n\t%1\n %2", "%0\n# c\n %1", "%0 %1\n# c1\n# c2\n  %2", "%0 %1 ", "\n %0\n %1", "%0\t%1 \t%2"]
-CM_LAYOUTS = ["%0", "%0, %1", "%0,%1,%2", "%0 , %1", "%0,\n %1", "%0\n , %1", "%0,\n# c\n %1,\n %2", "%0, %1,", ", %0, %1", "%0,\n %1\n ,", "\n %0,\n %1", "%0\t, %1", "%0\t\t,\n %1\t,\n\t%2"]
+WS_LAYOUTS = ["%0", "%0 %1", "%0  %1 %2", " %0 %1", "%0\n %1", "%0\n\t%1\n %2", "%0\n# c\n %1", "%0 %1\n# c1\n# c2\n  %2", "%0 %1 ", "\n %0\n %1", "%0\t%1 \t%2", "\n# c1\n# c2\n %0\n# c3\n %1"]
+CM_LAYOUTS = ["%0", "%0, %1", "%0,%1,%2", "%0 , %1", "%0,\n %1", "%0\n , %1", "%0,\n# c\n %1,\n %2", "%0, %1,", ", %0, %1", "%0,\n %1\n ,", "\n %0,\n %1", "%0\t, %1", "%0\t\t,\n %1\t,\n\t%2", "\n# c1\n# c2\n %0,\n# c3\n %1"]
 BOUNDARY = (10, 11, 12, 13, 28, 29, 30, 133, 0x2028, 0x2029)
 
 
@@ -125,9 +125,12 @@ def _run(params, li, w, op, idx, nw, op2, idx2):
             assume((o == 0) & (ix == 0))
             continue
         assume(0 <= o < 5)
+        reformat = params.get("reformat", False)
         if o == 0:
             assume(ix == 0)
             with view["Items"] as lst:
+                if reformat:
+                    lst.reformat_when_finished()
                 lst.append(new)
             cur = cur + [new]
             reach(params, "append")
@@ -138,11 +141,15 @@ def _run(params, li, w, op, idx, nw, op2, idx2):
             if o == 1:
                 assume(len(cur) > 1)
                 with view["Items"] as lst:
+                    if reformat:
+                        lst.reformat_when_finished()
                     lst.remove(target)
                 cur = cur[:first] + cur[first + 1:]
                 reach(params, "remove")
             elif o == 2:
                 with view["Items"] as lst:
+                    if reformat:
+                        lst.reformat_when_finished()
                     lst.replace(target, new)
                 cur = cur[:first] + [new] + cur[first + 1:]
                 reach(params, "replace")
@@ -176,12 +183,17 @@ def partitions(tier, seed):
     q = tier == "quick"
     for comma, nm, lays in ((False, "ws", WS_LAYOUTS), (True, "comma", CM_LAYOUTS)):
         # (a) concrete words: every layout x operation x operand index (x second operation)
-        for hole in (0, 1, 2):
-            P.append(dict(name="%s/concrete/hole%d/one-op" % (nm, hole), harness="h_list_c",
-                          params=dict(comma=comma, hole=hole, concrete=True, steps=1), budget=100 if q else 900, reach=["append", "remove", "replace", "ref-set", "ref-remove"] if hole < 2 else [],
-                          bounds="%s-separated list, all %d layouts, all five edit operations and operand indices (concrete words)" % (nm, len(lays))))
-        for lo in range(0, len(lays), 4 if q else 2):
-            hi = min(len(lays), lo + (4 if q else 2))
+        for lo in range(0, len(lays), 3):
+            hi = min(len(lays), lo + 3)
+            for hole in ((0,) if q else (0, 1, 2)):
+                P.append(dict(name="%s/concrete/lay%d-%d/hole%d/one-op" % (nm, lo, hi, hole), harness="h_list_c",
+                              params=dict(comma=comma, layouts=[lo, hi], hole=hole, concrete=True, steps=1), budget=80 if q else 900, reach=[],
+                              bounds="%s-separated list, layouts %d..%d, all five edit operations and operand indices (concrete words)" % (nm, lo, hi - 1)))
+        P.append(dict(name="%s/concrete/reformat" % nm, harness="h_list_c", params=dict(comma=comma, hole=0, concrete=True, steps=1, reformat=True),
+                      budget=100 if q else 900, reach=[],
+                      bounds="%s-separated list, all layouts, append/remove/replace with reformat_when_finished(): the field re-reads as the edited list, neighbours untouched, no error tokens" % nm))
+        for lo in range(0, len(lays), 6 if q else 2):
+            hi = min(len(lays), lo + (2 if q else 2))
             P.append(dict(name="%s/concrete/lay%d-%d/two-ops" % (nm, lo, hi), harness="h_list_c",
                           params=dict(comma=comma, layouts=[lo, hi], hole=0, concrete=True, steps=2), budget=70 if q else 1800, reach=[],
                           bounds="layouts %d..%d, every pair of edit operations" % (lo, hi - 1)))
@@ -189,7 +201,7 @@ def partitions(tier, seed):
         for lo in range(0, len(lays), 2):
             hi = min(len(lays), lo + 2)
             for op in range(5):
-                if q and (lo // 2 + op) % 5:
+                if q and (lo // 2 + op) % 7:
                     continue
                 for hole in ((0,) if q else (0, 1)):
                     for wlen, nlen in (((1, 1),) if q else ((1, 1), (2, 2))):
